@@ -595,6 +595,13 @@ def ld12(F, R):
                 continue        # these return Option
             R.bad("LD1", "LD1/Sodg::load/may-panic-on-short-input/%s" % e.name, e.where(),
                   "load() applies `%s` to the bytes it read: an image shorter than the position panics instead of giving Err" % e.name)
+    # ... and so does indexing / slicing them through the Index impls of Vec / slice / array (`bytes[..8]`, `bytes[0]`)
+    for e in raw:
+        if e.kind == "call" and not e.exp and e.callee.get("decl", "") in ("std::ops::Index::index", "std::ops::IndexMut::index_mut") and \
+                ("Vec<" in e.path or "[T]" in e.path or "[u8" in e.path):
+            R.bad("LD1", "LD1/Sodg::load/may-panic-on-short-input/index", e.where(),
+                  "load() indexes or slices the bytes it read at a fixed position: an image shorter than that panics instead of giving Err "
+                  "(`get(..)`, `first_chunk()` or `split_at_checked()` return an Option instead)")
     for site, kind, st in load.sites():
         if kind == "stmt" and st["k"] == "assign":
             for pl in [st["lhs"]] + [st["rv"].get("place")] if isinstance(st["rv"].get("place"), dict) else [st["lhs"]]:
